@@ -89,6 +89,14 @@ void __verif_seq(int mode);
 #  define MUL_REPLAY() ((void)0)
 #endif
 
+/* exact-size heap block for harness inputs (see rt_alloc in verif_rt.c) */
+#if defined(__CPROVER__)
+u8* __verif_alloc_exact(u64 n);
+#  define HALLOC(n) __verif_alloc_exact(n)
+#else
+#  include <stdlib.h>
+#  define HALLOC(n) ((u8*)malloc((n) ? (n) : 1))
+#endif
 /* exception / termination state of the translated code (in the real build the wrappers catch
  * C++ exceptions themselves and report them through return codes) */
 #endif
